@@ -324,7 +324,34 @@ class Gen:
             return '(%s < %s <= %s)' % (sub(), sub(), sub())
         if k == 'lambda':
             return 'tr(%d, (lambda: %s))' % (self.newtag(), sub())
-        return 'tr(%d, [q for q in (%s, %s)])' % (self.newtag(), sub(), sub())
+        return self.comprehension(d, ints, seqs, sub)
+
+    def comprehension(self, d, ints, seqs, sub=None):
+        """Every comprehension kind, with (nested) calls in element / key / value / condition / iterable position."""
+        r = self.rng
+        kind = r.choice(['list', 'set', 'dict', 'gen'])
+        pos = r.choice(['elt', 'key', 'value', 'cond', 'iter', 'flat'])
+        self.feats.add('comp-%s-%s' % (kind, pos))
+        deep = lambda v: 'tr(%d, tr(%d, %s))' % (self.newtag(), self.newtag(), v)      # noqa: E731
+        it = '(%s, %s)' % (self.atom(ints), self.atom(ints))
+        elt, key, val, cond = 'q', 'q', 'q', ''
+        if pos in ('elt', 'value'):
+            elt = val = deep('q')
+        elif pos == 'key':
+            key = elt = deep('q')
+        elif pos == 'cond':
+            cond = ' if %s' % deep('q')
+        elif pos == 'iter':
+            it = 'mk(%s, %s)' % (deep(self.atom(ints)), self.atom(ints))
+        if kind == 'dict':
+            body = '{%s: %s for q in %s%s}' % (key, val, it, cond)
+        elif kind == 'list':
+            body = '[%s for q in %s%s]' % (elt, it, cond)
+        elif kind == 'set':
+            body = '{%s for q in %s%s}' % (elt, it, cond)
+        else:
+            body = '*(%s for q in %s%s)' % (elt, it, cond)
+        return 'tr(%d, %s)' % (self.newtag(), body)
 
     def seq_expr(self, d, ints, seqs):
         old_nw, self._nw = self._nw, True
@@ -611,6 +638,34 @@ FIXED = [
     ('plain-2', 'def f(a, b):\n    for v in (tr(1), tr(2, a)):\n        if v < tr(3, v):\n            O[v] = b\n    return tr(4)\n'),
     ('plain-3', 'def f(a, b):\n    try:\n        x = tr(199, a)\n    except Err:\n        x = tr(2)\n    finally:\n        tr(3)\n    return x\n'),
 ]
+
+
+def _comp_fixed():
+    out = []
+    k = 0
+    for kind in ('list', 'set', 'dict', 'gen'):
+        for pos in ('elt', 'key', 'value', 'cond', 'iter', 'flat'):
+            if pos == 'key' and kind != 'dict':
+                continue
+            if pos == 'elt' and kind == 'dict':
+                continue
+            deep = 'tr(1, tr(2, q))'
+            it, elt, key, val, cond = 's0', 'q', 'q', 'q', ''
+            if pos in ('elt', 'value'):
+                elt = val = deep
+            elif pos == 'key':
+                key = deep
+            elif pos == 'cond':
+                cond = ' if ' + deep
+            elif pos == 'iter':
+                it = 'mk(tr(1, tr(2, a)), b)'
+            body = {'dict': '{%s: %s for q in %s%s}' % (key, val, it, cond), 'list': '[%s for q in %s%s]' % (elt, it, cond),
+                    'set': '{%s for q in %s%s}' % (elt, it, cond), 'gen': '*(%s for q in %s%s)' % (elt, it, cond)}[kind]
+            out.append(('comp-%s-%s' % (kind, pos), 'def f(a, b):\n    s0 = (1, 2, 3)\n    return tr(9, %s)\n' % body))
+    return out
+
+
+FIXED += _comp_fixed()
 
 
 def parse_fn(src):
